@@ -33,7 +33,7 @@ def abort_frame(index, sub, code):
 class RefSdoServer:
     def __init__(self, store=None, upload_size_indicated=True, expedited_size_indicated=True,
                  expedited_upload=True, blk_sizes=(127,), crc_support=True, block_upload_support=True,
-                 refuse=None):
+                 block_upload_size_indicated=True, refuse=None):
         self.store = dict(store or {})          # (index, sub) -> bytes
         self.upload_size_indicated = upload_size_indicated
         self.expedited_size_indicated = expedited_size_indicated
@@ -41,6 +41,7 @@ class RefSdoServer:
         self.blk_sizes = list(blk_sizes)        # block-download block sizes announced, cycled
         self.crc_support = crc_support
         self.block_upload_support = block_upload_support
+        self.block_upload_size_indicated = block_upload_size_indicated   # s bit of the block upload initiate response
         self.refuse = refuse                    # callable(kind, mux, data|None) -> abort code | None
         self.violations = []                    # (mechanism, message)
         self.observations = []                  # things worth reporting that no property forbids
@@ -372,6 +373,8 @@ class RefSdoServer:
             self.base = 0            # segments acknowledged so far
             self.sent = 0
             self.state = "bul_init"
+            if not self.block_upload_size_indicated:
+                return [struct.pack("<BHB4x", 0xC0 | (0x04 if self.crc_support else 0), index, sub)]
             return [struct.pack("<BHBL", 0xC2 | (0x04 if self.crc_support else 0), index, sub, len(self.value))]
         if cs == 3:
             if self.state != "bul_init":
